@@ -153,6 +153,10 @@ impl PerVisibleAlphabetConstraints {
                     (Some(ASN1Value::String(min)), None) => {
                         (find_string_index(min, char_set)?, char_set.len() - 1)
                     }
+                    // a range of integers (e.g. the folded operand of a SIZE constraint) is no alphabet
+                    (Some(ASN1Value::Integer(_)), _) | (_, Some(ASN1Value::Integer(_))) => {
+                        return Ok(None)
+                    }
                     _ => (0, char_set.len() - 1),
                 };
                 if lower > upper {
@@ -509,7 +513,7 @@ impl PerVisible for ElementOrSetOperation {
         match self {
             ElementOrSetOperation::Element(e) => e.per_visible(),
             ElementOrSetOperation::SetOperation(o) => {
-                o.operant.per_visible() || o.operant.per_visible()
+                o.base.per_visible() || o.operant.per_visible()
             }
         }
     }
@@ -571,6 +575,9 @@ fn fold_constraint_set(
             fold_constraint_set(s, char_set, range_constraint)?
         }
     };
+    if set.operator == SetOperator::Union && (folded_operant.is_none() || !set.base.per_visible()) {
+        return Ok(None);
+    }
     match (&set.base, &folded_operant) {
         (base, Some(SubtypeElements::PermittedAlphabet(elem_or_set)))
         | (SubtypeElements::PermittedAlphabet(elem_or_set), Some(base))
@@ -631,7 +638,7 @@ fn fold_constraint_set(
 
     match set.operator {
         SetOperator::Intersection => match (&set.base, &folded_operant) {
-            (b, _) if !b.per_visible() => Ok(None),
+            (b, _) if !b.per_visible() => Ok(folded_operant),
             (b, None) => Ok(Some(b.clone())),
             (b, Some(f)) if !f.per_visible() => Ok(Some(b.clone())),
             (
